@@ -1,20 +1,24 @@
 #!/bin/bash
-# usage: tools/try_mutant.sh <patch.diff> [tier] <Cnn> [Cnn...]   - applies the patch to /repo, runs the checks, reverts.
-# Never leaves /repo modified.  Exit status: number of checks that did NOT report a violation.
+# usage: tools/try_mutant.sh <patch.diff> [quick|thorough] <Cnn> [Cnn...]
+# Applies the patch to a scratch worktree of /repo (outside /repo and /verif), points the checks at it with
+# YATIML_VERIF_REPO, runs them and removes the worktree.  /repo itself is never touched, so several
+# mutants can be tried at the same time.  (Applying the patch to /repo and running ./check gives the same
+# result: the checks import yatiml from $YATIML_VERIF_REPO, default /repo.)
+# Exit status: number of checks that did NOT report a violation.  VERIF_JOBS limits the processes per check.
 PATCH="$(realpath "$1")"; shift
 TIER=quick
 if [ "$1" = quick ] || [ "$1" = thorough ]; then TIER=$1; shift; fi
-cd /repo || exit 99
-if [ -n "$(git status --porcelain --untracked-files=no)" ]; then echo "/repo is dirty"; exit 99; fi
-git apply "$PATCH" || { echo "patch does not apply"; exit 98; }
-trap 'git -C /repo checkout -- . ' EXIT
+WT=$(mktemp -d /tmp/mutant_wt_XXXXXX)
+git -C /repo worktree add -q --detach "$WT" HEAD || exit 99
+trap 'git -C /repo worktree remove --force "$WT" 2>/dev/null; rm -rf "$WT"' EXIT
+git -C "$WT" apply "$PATCH" || { echo "patch does not apply"; exit 98; }
 missed=0
 for p in "$@"; do
-  out=$(cd /verif && ./check $p --tier $TIER --no-fresh-replay 2>&1)
+  out=$(cd /verif && YATIML_VERIF_REPO="$WT" VERIF_EVIDENCE_DIR="$WT/.evidence" ./check $p --tier $TIER --no-fresh-replay 2>&1)
   rc=$?
   nv=$(echo "$out" | grep -c '^VIOLATION')
   echo "== $p rc=$rc violations=$nv $(echo "$out" | grep -m1 'wall=' | sed 's/.*wall=/wall=/')"
-  echo "$out" | grep -A2 '^VIOLATION' | head -${SHOW:-6} | cut -c1-300
+  echo "$out" | grep -A2 '^VIOLATION\|^VACUOUS\|^HARNESS' | head -${SHOW:-6} | cut -c1-300
   [ $rc -eq 1 ] || missed=$((missed+1))
 done
 exit $missed
